@@ -195,6 +195,7 @@ pub fn base_raw(quick: bool) -> Vec<Gen> {
                                 Tok::Lit(b) => l2[*b as usize] != 0,
                                 Tok::Match(len, _) => l2.get(len_sym(*len).0 as usize).copied().unwrap_or(0) != 0,
                                 Tok::RawSym(s) => l2[*s as usize] != 0,
+                                Tok::Bits(..) => true,
                             })
                             .collect();
                         let plan = Plan::Dynamic { toks: toks_ok, ll_lens: l2, d_lens: dl.clone(), rle, hclen_trim: true };
@@ -216,6 +217,104 @@ pub fn base_raw(quick: bool) -> Vec<Gen> {
         let mut g = gen(format!("hlit={nl} hdist={nd}"), &[Plan::Dynamic { toks: vec![Tok::Lit(0)], ll_lens: ll, d_lens: dl, rle: Rle::Greedy, hclen_trim: true }]);
         g.expected = None;
         v.push(g);
+    }
+    // state that must not leak from one block's decoding tables into the next block's: every "suffix" block
+    // that uses a code the block does not define (a length symbol where the distance alphabet is empty or has a
+    // single 1-bit code, a second literal/length code where only EOB has one) after each of several prefix blocks
+    // whose tables are rich exactly where the suffix block's tables are empty. The reference decoder judges.
+    {
+        let lla = |pairs: &[(usize, u8)]| {
+            let mut ll = vec![0u8; 258];
+            for &(s, l) in pairs {
+                ll[s] = l;
+            }
+            ll
+        };
+        let shapes: Vec<(&str, Vec<u8>)> = vec![
+            ("ll{a:2,EOB:2,257:1}", lla(&[(0x61, 2), (256, 2), (257, 1)])),
+            ("ll{a:1,EOB:2,257:2}", lla(&[(0x61, 1), (256, 2), (257, 2)])),
+            ("ll{a:2,b:2,EOB:2,257:2}", lla(&[(0x61, 2), (0x62, 2), (256, 2), (257, 2)])),
+        ];
+        let d30 = {
+            let mut d = vec![5u8; 30];
+            d[0] = 4;
+            d[1] = 4;
+            d
+        };
+        let mut prefixes: Vec<(String, Plan)> = vec![("fixed(aaa+matches)".into(), Plan::Fixed(vec![Tok::Lit(0x61), Tok::Lit(0x61), Tok::Lit(0x61), Tok::Match(3, 1), Tok::Match(3, 2)]))];
+        for (sn, ll) in &shapes {
+            prefixes.push((format!("dyn({sn} dist[1,1])"), Plan::Dynamic { toks: vec![Tok::Lit(0x61), Tok::Lit(0x61), Tok::Match(3, 1), Tok::Match(3, 2)], ll_lens: ll.clone(), d_lens: vec![1, 1], rle: Rle::Greedy, hclen_trim: true }));
+            prefixes.push((format!("dyn({sn} dist30)"), Plan::Dynamic { toks: vec![Tok::Lit(0x61), Tok::Lit(0x61), Tok::Match(3, 1), Tok::Match(3, 2)], ll_lens: ll.clone(), d_lens: d30.clone(), rle: Rle::Greedy, hclen_trim: true }));
+        }
+        let mut suffixes: Vec<(String, Plan)> = vec![];
+        for (sn, ll) in &shapes {
+            for (dn, dl) in [("nodist", vec![0u8]), ("dist[1]", vec![1u8]), ("dist[0,1]", vec![0u8, 1])] {
+                for bits in [0u16, 1, 2, 3] {
+                    suffixes.push((format!("dyn({sn} {dn}) a,257,bits={bits:02b}"), Plan::Dynamic { toks: vec![Tok::Lit(0x61), Tok::RawSym(257), Tok::Bits(bits, 2)], ll_lens: ll.clone(), d_lens: dl.clone(), rle: Rle::Greedy, hclen_trim: true }));
+                }
+            }
+        }
+        // only EOB has a literal/length code (1 bit): the other 1-bit code is undefined
+        for bits in [0u16, 1, 2, 3] {
+            suffixes.push((format!("dyn(ll{{EOB:1}} nodist) bits={bits:02b}"), Plan::Dynamic { toks: vec![Tok::Bits(bits, 2)], ll_lens: lla(&[(256, 1)])[..257].to_vec(), d_lens: vec![0], rle: Rle::Greedy, hclen_trim: true }));
+        }
+        for (sn, sp) in &suffixes {
+            let mut g = gen(format!("undefined-code {sn}"), std::slice::from_ref(sp));
+            g.expected = None;
+            v.push(g);
+            for (pn, pp) in &prefixes {
+                let mut g = gen(format!("undefined-code {pn} + {sn}"), &[pp.clone(), sp.clone()]);
+                g.expected = None;
+                v.push(g);
+            }
+        }
+    }
+    // self-overlapping matches (length > distance) at distances around and above the widths of the copy loops'
+    // chunks (8/16/32/64 bytes), after just enough literals: the run-length style copies every decoder special-cases
+    for (nl, len, dist) in [(8usize, 258u16, 8u16), (16, 258, 16), (17, 40, 17), (32, 258, 32), (33, 100, 33), (63, 258, 63), (64, 258, 64), (64, 65, 64), (65, 258, 65), (100, 158, 100), (100, 258, 100), (128, 200, 128), (200, 258, 199), (257, 258, 257)] {
+        let mut t: Vec<Tok> = (0..nl as u32).map(|i| Tok::Lit((i.wrapping_mul(2654435761) >> 11) as u8)).collect();
+        t.push(Tok::Match(len, dist));
+        t.push(Tok::Lit(b'|'));
+        t.push(Tok::Match(len.min(70), dist));
+        v.push(gen(format!("overlap({nl} lits + match({len},{dist}) + lit + match)"), &[Plan::DynamicAuto(t.clone())]));
+        if nl == 64 || nl == 100 {
+            v.push(gen(format!("fixed overlap({nl} lits + match({len},{dist}) + lit + match)"), &[Plan::Fixed(t)]));
+        }
+    }
+    // every codeword length 1..15 of a literal/length code and of a distance code USED in the middle of a stream
+    // long enough for the decoders' fast loops (>= 15 input bytes and >= 260 bytes of output room left): second-level
+    // table lookups for literals, lengths and distances
+    {
+        let mut ll = vec![0u8; 286];
+        let syms = [0usize, 1, 2, 3, 4, 5, 6, 7, 8, 9, 10, 11, 12, 13, 256, 285];
+        for (i, &s) in syms.iter().enumerate() {
+            ll[s] = if i < 15 { (i + 1) as u8 } else { 15 };
+        }
+        let mut dl = vec![0u8; 30];
+        for (i, d) in dl.iter_mut().enumerate().take(16) {
+            *d = if i < 15 { (i + 1) as u8 } else { 15 };
+        }
+        let base = [1u16, 2, 3, 4, 5, 7, 9, 13, 17, 25, 33, 49, 65, 97, 129, 193];
+        let mut t: Vec<Tok> = vec![];
+        for i in 0..260u32 {
+            t.push(Tok::Lit(if i % 7 == 3 { 1 } else { 0 }));
+        }
+        for (k, &d) in base.iter().enumerate() {
+            t.push(Tok::Match(258, d + (k as u16 % 2) * (d > 4) as u16));
+            t.push(Tok::Lit((k % 14) as u8));
+        }
+        for i in 0..14u8 {
+            t.push(Tok::Lit(i));
+        }
+        for _ in 0..300 {
+            t.push(Tok::Lit(0));
+        }
+        v.push(gen("long hcode(15-bit ll chain, 15-bit dist chain, every codeword used mid-stream)".into(), &[Plan::Dynamic { toks: t.clone(), ll_lens: ll.clone(), d_lens: dl, rle: Rle::Greedy, hclen_trim: true }]));
+        // the same tokens with a flat 5-bit distance code next to the 15-bit literal/length chain
+        let mut d30 = vec![5u8; 30];
+        d30[0] = 4;
+        d30[1] = 4;
+        v.push(gen("long hcode(15-bit ll chain, dist30, every codeword used mid-stream)".into(), &[Plan::Dynamic { toks: t, ll_lens: ll, d_lens: d30, rle: Rle::Greedy, hclen_trim: true }]));
     }
     // long streams: window wrap, 32 KiB distances, maximal stored block
     let mut long = vec![];
